@@ -35,6 +35,7 @@ class Ctx:
         self.sc = sc
         self.obs = {}
         self.labels = {}
+        self.assocs = {}
         self.nlab = {"requestor": 0, "acceptor": 0}
         self.servers = []
         self.aes = []
@@ -53,6 +54,7 @@ class Ctx:
             lab = "%s%d" % ("req" if mode == "requestor" else "acc", self.nlab[mode])
             self.nlab[mode] += 1
             self.labels[k] = lab
+            self.assocs[lab] = assoc
             assoc._dsim_label = lab
         return lab
 
@@ -112,8 +114,20 @@ class Ctx:
             p = event.primitive
             d["prim"] = type(p).__name__
             d["result"] = getattr(p, "result", None)
-        elif name in ("EVT_CONN_OPEN", "EVT_CONN_CLOSE"):
-            pass
+        elif name == "EVT_CONN_OPEN":
+            try:
+                d["conn"] = event.assoc.dul.socket.socket._conn.cid
+            except Exception:  # noqa: BLE001
+                d["conn"] = None
+        if name in ("EVT_ABORTED", "EVT_RELEASED", "EVT_REJECTED", "EVT_ESTABLISHED"):
+            f = sys._getframe(1)
+            d["origin"] = None
+            while f is not None:
+                fn = f.f_code.co_filename
+                if "/pynetdicom/" in fn and not fn.endswith("events.py"):
+                    d["origin"] = f.f_code.co_name
+                    break
+                f = f.f_back
         sim.record("evt", **d)
         plan = self.raise_plan
         if plan is not None:
@@ -197,7 +211,7 @@ class Result:
     __slots__ = (
         "digest", "steps", "switches", "now", "failure", "failure_info", "died", "hist", "wire",
         "obs", "decisions", "dec_n", "counters", "line_hits", "line_preempts", "open_socks",
-        "tasks", "harness_error", "wall", "log",
+        "tasks", "harness_error", "wall", "log", "final",
     )
 
     def evts(self, assoc=None, name=None):
@@ -281,7 +295,19 @@ def run_once(prop, sc, seed, replay=None, lenient=False, keep_log=False, wall_li
     r.line_hits = sim.line_hits
     r.line_preempts = sim.line_preempts
     r.open_socks = [(s._fd, s.label) for s in net.open_sockets()]
-    r.tasks = [(t.tid, t.role, t.state) for t in sim.tasks]
+    r.tasks = [
+        {"tid": t.tid, "role": t.role, "state": t.state, "exit_t": t.exit_t, "exit_seq": t.exit_seq, "start_t": t.start_t}
+        for t in sim.tasks
+    ]
+    r.final = {}
+    for lab, a in ctx.assocs.items():
+        try:
+            r.final[lab] = ctx.assoc_state(a)
+            sk = a.dul.socket
+            r.final[lab]["sock_none"] = sk is None or sk.socket is None
+            r.final[lab]["sock_closed"] = sk is None or sk.socket is None or bool(getattr(sk.socket, "_closed", False))
+        except Exception as e:  # noqa: BLE001
+            r.final[lab] = {"error": repr(e)}
     r.harness_error = sim.harness_error
     r.log = sim.log_lines
     S.set_sim(None)
